@@ -309,10 +309,15 @@ class SchemaValidator:
 
         known_param_names = [arg.python_name for arg in args]
 
+        # The executor calls ``resolver(root, context, info, **arguments)``:
+        # the 3 positional values bind to the first 3 positional parameters.
+        expected_positional = [
+            p for p in params if p.kind in POSITIONAL_PARAM_KINDS
+        ][:3]
+
         for arg in args:
-            try:
-                param = sig.parameters[arg.python_name]
-            except KeyError:
+            param = sig.parameters.get(arg.python_name)
+            if param is None or param.kind in VAR_PARAM_KINDS:
                 if not accepts_arbitrary_kw_params:
                     self.add_error(
                         'Missing resolver parameter for argument "%s" on "%s"'
@@ -338,17 +343,13 @@ class SchemaValidator:
                         '"%s" must have a default' % (arg.name, path,)
                     )
 
-        remaining = [
-            p
-            for p in params
-            if p.name not in known_param_names and p.kind not in VAR_PARAM_KINDS
-        ]
-
         remaining_positional = [
-            p for p in remaining if p.kind in POSITIONAL_PARAM_KINDS
+            p for p in expected_positional if p.name not in known_param_names
         ]
 
-        if not accepts_arbitrary_params and len(remaining_positional) < 3:
+        if len(remaining_positional) < len(expected_positional) or (
+            not accepts_arbitrary_params and len(expected_positional) < 3
+        ):
             self.add_error(
                 'Resolver for "%s" must accept 3 positional parameters, found (%s)'
                 % (
@@ -359,7 +360,14 @@ class SchemaValidator:
                 )
             )
 
-        for param in remaining[3:]:
+        for param in params:
+            if (
+                param.kind in VAR_PARAM_KINDS
+                or param in expected_positional
+                or param.name in known_param_names
+            ):
+                continue
+
             if param.default is Parameter.empty:
                 self.add_error(
                     'Required resolver parameter "%s" on "%s" does not match '
